@@ -1258,3 +1258,16 @@ def search_totality(drv, rng, budget):
                         "op": op, "expected": "Ok or Err (no panic)", "observed": got[:300]}
         n += 1
     return None
+
+
+@searcher("num/fmt::Display for U256")
+def search_u256_display(drv, rng, budget):
+    """<U256 as Display>::fmt against Python's decimal rendering: boundary values, powers of ten and two, random values of random magnitude"""
+    M = 2 ** 256
+    vals = [0, 1, 9, 10, 99, 100, 255, 256, 10 ** 18, 10 ** 19, 10 ** 19 + 1, 10 ** 38, 2 ** 64, 2 ** 128 - 1, 2 ** 128, M - 1, M // 3] + [10 ** k for k in range(0, 78)] \
+        + [2 ** k for k in range(0, 256, 7)] + [rng.randrange(M) for _ in range(60)] + [rng.randrange(10 ** rng.randint(1, 77)) for _ in range(60)]
+    for v in vals:
+        got = drv.call("u256_display", "%064x" % v)
+        if got != "ok " + str(v):
+            return {"call": "<U256 as Display>::fmt", "input": {"value": v}, "op": ["u256_display", "%064x" % v], "expected": "ok " + str(v), "observed": got}
+    return None
